@@ -72,6 +72,7 @@ func genInbox(r *Rng, prop string, k int) *RunSpec {
 			"likes":  colOf(n3+"/likes", "https://"+hostR+"/act/oldl")})},
 		DocSpec{"https://" + hostA + "/f/2", mustJSON(J{"@context": asCtx, "type": "Follow", "id": "https://" + hostA + "/f/2", "actor": st.Alice.ID, "object": []string{st.Erin, st.Dave}})},
 		DocSpec{"https://" + hostA + "/f/3", mustJSON(J{"@context": asCtx, "type": "Follow", "id": "https://" + hostA + "/f/3", "actor": st.Carol.ID, "object": st.Dave})},
+		DocSpec{"https://" + hostA + "/f/5", mustJSON(J{"@context": asCtx, "type": "Follow", "id": "https://" + hostA + "/f/5", "actor": []string{st.Alice.ID, st.Carol.ID}, "object": st.Dave})},
 		DocSpec{"https://" + hostA + "/f/4", mustJSON(J{"@context": asCtx, "type": "Like", "id": "https://" + hostA + "/f/4", "actor": st.Alice.ID, "object": st.Dave})},
 		DocSpec{st.Alice.Followers, mustJSON(J{"@context": asCtx, "type": "Collection", "id": st.Alice.Followers, "items": []string{st.Erin}})},
 	)
@@ -255,7 +256,17 @@ func genInbox(r *Rng, prop string, k int) *RunSpec {
 		}
 		f = J{"object": objs}
 	case "Accept", "Reject":
-		fid := Pick(r, []string{st.Follow1, "https://" + hostA + "/f/2", "https://" + hostA + "/f/3", "https://" + hostA + "/f/4", "https://" + hostA + "/f/none"})
+		fid := Pick(r, []string{st.Follow1, "https://" + hostA + "/f/2", "https://" + hostA + "/f/3", "https://" + hostA + "/f/4", "https://" + hostA + "/f/none", "https://" + hostA + "/f/5"})
+		if r.Intn(5) == 0 {
+			// the Accept comes from (or is co-signed by) somebody who is on the Follow as one who follows, not as one who is followed
+			who := Pick(r, []string{st.Alice.ID, st.Carol.ID})
+			if r.Bool() {
+				actors = append(actors, who)
+			} else {
+				actors = []interface{}{who}
+			}
+			actorIDs = idsOf(actors)
+		}
 		claimed := J{"type": "Follow", "id": fid, "actor": Pick(r, []string{st.Alice.ID, st.Alice.ID, st.Carol.ID, caseVariant(st.Alice.ID)}), "object": actorIDs}
 		var obj interface{} = claimed
 		if r.Intn(3) == 0 {
@@ -314,6 +325,10 @@ func genInbox(r *Rng, prop string, k int) *RunSpec {
 				who = actorIDs[:1]
 			case 2: // superset
 				who = append(append([]string{}, actorIDs...), "https://"+hostR+"/u/zed")
+				if r.Bool() {
+					// ... by an actor whose id shares the document of an Undo actor and differs in the fragment only
+					who = append(append([]string{}, actorIDs...), strings.SplitN(actorIDs[0], "#", 2)[0]+"#other-key")
+				}
 			default: // disjoint
 				who = []string{"https://" + hostR + "/u/zed"}
 			}
